@@ -101,12 +101,10 @@ def render_field(shape, opts, file_opts=(), msg_opts=()):
 HOLDERS = ["file", "file-with-nonzero-enum", "message", "nested-message", "empty-message", "enum", "enum-nonzero-first", "enum-value", "oneof",
            "extension-range", "service", "method"]
 
-# Sub-strata on which the two compilers are known to disagree on the UNCHANGED tree (found when this stratum was built, 2026-09-22;
-# each is a structural class of inputs, not a filter on results).  They are generated only when the environment variable
-# VERIF_C27_FEATURES_GATED is 1 (all of them) or a comma-separated list of the names below; the smallest input of each is in
-# corpus/C27/<name>.proto.  Remove a name from this table once KNOWN_FINDINGS.txt has a `known:` line for its keys (or the
-# repository is repaired): the sub-stratum then runs by default.
-GATED = {
+# Sub-strata on which the two compilers disagree on the UNCHANGED tree (found when this stratum was built, 2026-09-22; each is a
+# structural class of inputs, not a filter on results); the smallest input of each is corpus/C27/<name>.proto and is part of the
+# quick tier's corpus.  All six are `known:` lines of KNOWN_FINDINGS.txt now and run by default.
+DISAGREEING = {
     "repeated-field-encoding-on-map": "features.repeated_field_encoding = EXPANDED / ..._UNKNOWN written on a map field: the stable compiler "
                                       "accepts (a map field is repeated), the experimental one rejects (expected repeated field, found singular field)",
     "feature-on-extension-range": "any features.* on an extension range: the stable compiler enforces the option targets of the FeatureSet "
@@ -116,6 +114,18 @@ GATED = {
     "integer-as-feature-value": "features.x = 1 (an integer literal where an enum value name is expected): only the stable compiler rejects",
     "default-with-implicit-presence": "default = ... on an editions field whose presence is IMPLICIT or FIELD_PRESENCE_UNKNOWN (written on the "
                                       "field or inherited from the file): only the stable compiler rejects",
+}
+
+# What is withheld by default: name -> (what, the keys its inputs produce on the unchanged tree).  A name is generated / its corpus file
+# corpus/C27/<name>.proto is read when VERIF_C27_FEATURES_GATED is 1 (all) or lists it, or - without any switch - as soon as
+# KNOWN_FINDINGS.txt has a `known:` line for every one of its keys.  Sub-strata of feature_cases are withheld by their trait name.
+GATED = {
+    "range-endpoint-in-19000-19999": ("a reserved or extension range of a message with an end point in 19000..19999 (the numbers reserved for "
+                                      "the implementation): the stable compiler (as protoc) accepts the range, the experimental one reports "
+                                      "`field number out of range` for each such end point (a range that merely spans them is accepted by both)",
+                                      ["stable-accepts-experimental-rejects:field-number-out-of-range:range-endpoint-in-19000-19999"]),
+    "json-name-bracketed": ("json_name = '[...]' on a message field: only the stable compiler rejects a value that starts with [ and ends with ]",
+                            ["stable-rejects-experimental-accepts:option-json_name-value-cannot-start-with-_-and-end-with-_-that-is-reserv"]),
 }
 
 
@@ -195,14 +205,26 @@ LIBS = {
 }
 
 
+def known_keys():
+    import os
+    p = os.path.join(os.path.dirname(os.path.dirname(os.path.abspath(__file__))), "KNOWN_FINDINGS.txt")
+    out = set()
+    if os.path.exists(p):
+        for line in open(p):
+            if line.startswith("known:") and "property=C27 " in line and "key=" in line:
+                out.add(line.split("key=", 1)[1].split()[0])
+    return out
+
+
 def gated_on():
+    """the names of GATED that are generated in this run"""
     import os
     v = os.environ.get("VERIF_C27_FEATURES_GATED", "").strip()
-    if v in ("", "0"):
-        return set()
     if v == "1" or v == "all":
         return set(GATED)
-    return set(x.strip() for x in v.split(",")) & set(GATED)
+    on = set(x.strip() for x in v.split(",")) & set(GATED) if v not in ("", "0") else set()
+    kn = known_keys()
+    return on | set(n for n, (_, keys) in GATED.items() if all(k in kn for k in keys))
 
 
 def feature_cases(rng, quick_budget=None, with_gated=None):
@@ -332,14 +354,3 @@ def feature_cases(rng, quick_budget=None, with_gated=None):
         mo = ["features.%s = %s" % rng.choice(FEATURE_VALUES)] if rng.chance(1, 5) else []
         add(render_field(sh, opts, file_opts=fo, msg_opts=mo), "pair", field_traits(sh, opts, fo))
     return out, withheld
-
-
-# the smallest input of each gated sub-stratum (also kept as files in corpus/C27/)
-GATED_SMALLEST = {
-    "repeated-field-encoding-on-map": 'edition = "2023";\nmessage M { map<int32, int32> f = 1 [features.repeated_field_encoding = EXPANDED]; }\n',
-    "feature-on-extension-range": 'edition = "2023";\nmessage M { extensions 1 to 2 [features.utf8_validation = NONE]; }\n',
-    "feature-on-service": 'edition = "2023";\nservice S { option features.utf8_validation = NONE; }\n',
-    "feature-on-method": 'edition = "2023";\nmessage M { }\nservice S { rpc R(M) returns (M) { option features.enum_type = OPEN; } }\n',
-    "integer-as-feature-value": 'edition = "2023";\nmessage M { int32 f = 1 [features.field_presence = 1]; }\n',
-    "default-with-implicit-presence": 'edition = "2023";\nmessage M { string f = 1 [features.field_presence = IMPLICIT, default = "d"]; }\n',
-}
